@@ -57,8 +57,21 @@ class P:
     def nontrivial(self, case, impl):
         return any(ch in impl for ch in "BUPTFLM")
 
+    def run_model(self, lines):
+        self.thm = core.ThmRunner()
+        return self.thm.run(lines)
+
     def compare(self, case, impl, model):
-        return None if impl == model else "ast+expr+reparse"
+        if impl != model:
+            return "ast+expr+reparse"
+        if self.thm.broken(case.cid):
+            # the hypotheses of the round-trip theorem hold for this tree but the tokenizer model does not read the printer
+            # model's text as etoks(t): theorem C12_round_trip / C02_round_trip no longer speaks about what expr() writes
+            return "thm:printer_tokens (Props C12_round_trip: printer text is not the token image etoks)"
+        return None
+
+    def extra_coverage(self):
+        return {"round_trip_theorem_side_conditions": dict(self.thm.stats)}
 
     def known(self, case, impl, detail):
         return None
